@@ -149,4 +149,10 @@ length field this is what `write` puts on a healthy connection, call after call
 (`IceProps.C14.C14_wire_is_written`). -/
 def wire (pkts : List (List UInt8)) : List UInt8 := (pkts.map encode).flatten
 
+/-- `tcpPacketConn.ReadFrom` (`readFromContext`) handing a queued packet `p` to a caller buffer of LENGTH `blen`:
+the whole packet, or nothing (`io.ErrShortBuffer`) when it does not fit — never a part of it.  (/repo after the fix of
+F35: the test was on the buffer's CAPACITY, the copy on its length.) -/
+def packetConnRead (blen : Nat) (p : List UInt8) : Option (List UInt8) :=
+  if blen < p.length then none else some p
+
 end IceModel.Framing
